@@ -374,3 +374,30 @@ Definition read_source (bytes : list Z) : outcome unit :=
    (any other unusable path is an OSError, which _main.py reports) *)
 Definition import_path (path : list ascii) : outcome unit :=
   if existsb (fun c => Ascii.eqb c (ascii_of_nat 0)) path then Crash ValueError else Ok tt.
+
+(* ====================================================================================== *)
+(* 10. whole token rules, and comparison helpers for the T2 case files                     *)
+(* ====================================================================================== *)
+
+(* t_UINT_TYPE / t_INT_TYPE: conversion, then the type node validates its width *)
+Definition uint_rule (tv : list ascii) : outcome Z := bind (lex_uint_cap tv) uint_cap_check.
+Definition int_rule (tv : list ascii) : outcome Z := bind (lex_int_cap tv) int_cap_check.
+
+Definition str_result_eqb (a b : list ascii * Z) : bool :=
+  ascii_list_eqb (fst a) (fst b) && (snd a =? snd b).
+
+Definition out_str_eqb := outcome_eqb str_result_eqb.
+Definition out_z_eqb := outcome_eqb Z.eqb.
+Definition out_unit_eqb := outcome_eqb (fun _ _ : unit => true).
+
+(* same outcome CLASS (Ok / the same ParserError / the same exception), values ignored *)
+Definition same_class {A B} (a : outcome A) (b : outcome B) : bool :=
+  match a, b with
+  | Ok _, Ok _ => true
+  | ParserError k, ParserError k' => String.eqb k k'
+  | Crash e, Crash e' => pyexn_eqb e e'
+  | _, _ => false
+  end.
+
+Definition code (tie_ok : bool) (impl_crashed : bool) : Z :=
+  (if tie_ok then 0 else 1) + (if impl_crashed then 2 else 0).
